@@ -294,7 +294,8 @@ public:
     auto xy_at(x_coord_t x, y_coord_t y) const -> xy_locator
     {
         // TODO: Are relative locations of neighbors with negative offsets valid? Sampling?
-        BOOST_ASSERT(x < width());
+        // allow request for locators from the inclusive range [begin, end] (empty views: xy_at(0,0))
+        BOOST_ASSERT(x <= width());
         BOOST_ASSERT(y <= height());
         return _pixels + point_t(x, y);
     }
@@ -302,8 +303,9 @@ public:
     auto xy_at(point_t const& p) const -> xy_locator
     {
         // TODO: Are relative locations of neighbors with negative offsets valid? Sampling?
-        BOOST_ASSERT(p.x < width());
-        BOOST_ASSERT(p.y < height());
+        // allow request for locators from the inclusive range [begin, end] (empty views: xy_at(0,0))
+        BOOST_ASSERT(p.x <= width());
+        BOOST_ASSERT(p.y <= height());
         return _pixels + p;
     }
     //\}@
